@@ -268,6 +268,13 @@ def run(ck):
         ck.ob('KW-wiring', 'vermouth/rcsu/go_pipeline.py', set(users) >= {'VirtualSiteCreator', 'ComputeStructuralGoBias'},
               'both the site creator and the contact selector take the backbone particle name under the keyword `{}` (declared by: {}) -- sites and contacts use the same particle'.format(nm, users),
               key='KW-wiring|' + nm)
+    prep = ck.need(method(gp.cls('GoProcessorPipeline'), 'prepare_run'), 'GoProcessorPipeline.prepare_run vanished')
+    ck.analysed(gp, prep)
+    sets = [s_ for s_ in walk_local(prep) if isinstance(s_, ast.Assign) and u(s_.targets[0]) == "molecule.meta['moltype']"]
+    ok = len(sets) == 1 and u(sets[0].value) == 'moltype' and unconditional_in(prep, prep.body, sets[0]) and u(single_def(prep, 'molecule')) == 'system.molecules[0]' and \
+        'vermouth.MergeAllMolecules().run_system(system)' in u(prep)
+    ck.ob('KW-wiring', gp.loc(prep), ok, 'the merged molecule is given the requested molecule-type name unconditionally (the site creator names the site types after the molecule\'s name, '
+          'the contact selector after the requested name: they must be the same)', key='KW-wiring|moltype')
     rsys = ck.need(method(gp.cls('GoProcessorPipeline'), 'run_system'), 'GoProcessorPipeline.run_system vanished')
     ck.analysed(gp, rsys)
     src = u(rsys)
